@@ -223,12 +223,12 @@ func diff(a, b reflect.Value, path string) string {
 	switch a.Kind() {
 	case reflect.Float32:
 		x, y := math.Float32bits(float32(a.Float())), math.Float32bits(float32(b.Float()))
-		if x != y {
+		if x != y && !(a.Float() == 0 && b.Float() == 0) { // (an optional member at its default 0 is not transmitted: -0 and +0 are one value there)
 			return fmt.Sprintf("%s: float32 bits %08x vs %08x", path, x, y)
 		}
 	case reflect.Float64:
 		x, y := math.Float64bits(a.Float()), math.Float64bits(b.Float())
-		if x != y {
+		if x != y && !(a.Float() == 0 && b.Float() == 0) {
 			return fmt.Sprintf("%s: float64 bits %016x vs %016x", path, x, y)
 		}
 	case reflect.Slice, reflect.Array:
